@@ -171,7 +171,7 @@ def iter_next(I, st, itv, n, k_some, k_none, line=None):
     ty = getattr(itv, 'ty', None)
     name = next_name(ty)
     ity = item_type(ty)
-    res = I.extern_value(st, name, [F.Ref(st.alloc(itv))], f"std::option::Option<{ity}>", line=line, fn=st.frames[-1].body.path)
+    res = I.extern_value(st, name, [F.Ref(st.alloc(itv))], f"std::option::Option<{ity}>", line=line, fn=st.frames[-1].body.path, unique=True)
     if isinstance(res, F.Unknown):
         raise F.Undecided(f"next() on unknown iterator")
     return fork_variants(I, st, res, lambda s, vn, pl: k_some(s, pl, n + 1) if vn == 'Some' else k_none(s, n + 1))
